@@ -465,26 +465,46 @@ pub fn value_type_to_string(value: &Option<ValueType>) -> String {
     }
 }
 
-#[derive(Debug, Clone, Copy, PartialEq, PartialOrd)]
+#[derive(Debug, Clone, Copy)]
 pub struct Float(pub f64);
 
+impl Float {
+    /// The value that equality, ordering and hashing are all defined on: -0.0 and 0.0 are the same number
+    /// and every NaN is the same (largest) value, which makes the IEEE total order a lawful total order here.
+    fn total_order_key(&self) -> f64 {
+        if self.0.is_nan() {
+            f64::NAN
+        } else if self.0 == 0.0 {
+            0.0
+        } else {
+            self.0
+        }
+    }
+}
+
+impl PartialEq for Float {
+    fn eq(&self, other: &Self) -> bool {
+        self.cmp(other) == Ordering::Equal
+    }
+}
+
 impl Eq for Float {}
+
+impl PartialOrd for Float {
+    fn partial_cmp(&self, other: &Self) -> Option<Ordering> {
+        Some(self.cmp(other))
+    }
+}
+
 impl Ord for Float {
     fn cmp(&self, other: &Self) -> Ordering {
-        if self.0 < other.0 {
-            Ordering::Less
-        } else if self.0 > other.0 {
-            Ordering::Greater
-        } else {
-            Ordering::Equal
-        }
+        self.total_order_key().total_cmp(&other.total_order_key())
     }
 }
 
 impl Hash for Float {
     fn hash<H: Hasher>(&self, state: &mut H) {
-        let bits: u64 = unsafe { std::mem::transmute(self.0) };
-        bits.hash(state)
+        self.total_order_key().to_bits().hash(state)
     }
 }
 
